@@ -11,11 +11,12 @@ blank line, data cards.  `respell(text, rng, kinds)` returns a text that MCNP re
   message       a message block (and its blank-line terminator) before the title
   numbers       Fortran spellings of real numbers (1.5 -> 1.5e0, 15.0-1, .15+1, 1.5D0) in surface parameters, TR entries,
                 material fractions and densities
+  ending        the file ends right after the last card (no final newline), or with the blank-line terminator
   shorthand     nR / nI / nM shorthand in IMP data cards, nR in TR cards and in the universes of FILL arrays
 """
 import re
 
-KINDS = ('case', 'blanks', 'tabs', 'continuation', 'comments', 'message', 'numbers', 'shorthand')
+KINDS = ('case', 'blanks', 'tabs', 'continuation', 'comments', 'message', 'numbers', 'shorthand', 'ending')
 
 _NUM = re.compile(r'^[-+]?(\d+\.\d*|\.\d+|\d+)([eE][-+]?\d+)?$')
 
@@ -251,4 +252,12 @@ def respell(text, rng, kinds=KINDS):
     if 'message' in kinds and rng.random() < 0.5:
         head = ['message: outp=respelled.o', '']
     body = [title] + out_blocks[0] + [''] + out_blocks[1] + [''] + out_blocks[2]
-    return '\n'.join(head + body) + '\n'
+    text2 = '\n'.join(head + body) + '\n'
+    if 'ending' in kinds:
+        # how the file ends after its last card: no final newline at all, or the blank-line terminator of the data block
+        choice = rng.randrange(3)
+        if choice == 0:
+            text2 = text2.rstrip('\n')
+        elif choice == 1:
+            text2 = text2 + '\n'
+    return text2
